@@ -271,7 +271,8 @@ pub fn run(p: &Params) -> Report {
     }
     let n = p.budget(3_000, 300_000);
     for i in 0..n {
-        scenario(p.shard_seed(0x14_0000 + i), &pool, &mut rep);
+        let seed = p.shard_seed(0x14_0000 + i);
+        crate::util::guarded(&mut rep, seed, |rep| scenario(seed, &pool, rep));
     }
     rep
 }
